@@ -214,7 +214,7 @@ def program_case(draw, tier: str):
         "init": draw(st.sampled_from(inits)),
         "program": program,
         "max_preemptions": 2 if tier == "quick" else 3,
-        "max_schedules": 700 if tier == "quick" else 40000,
+        "max_schedules": 700 if tier == "quick" else 5000,
     }
 
 
@@ -242,6 +242,6 @@ PROP = Property(
     ],
     streams=[
         Stream("two_by_one_all_schedules", check_program, enum=enum_two_by_one, quick=1, thorough=1, exhaustive=True),
-        Stream("bounded", check_program, strategy=lambda tier: program_case(tier), quick=160, thorough=6000, per_shard_min=5),
+        Stream("bounded", check_program, strategy=lambda tier: program_case(tier), quick=160, thorough=1200, per_shard_min=5),
     ],
 )
